@@ -1,3 +1,143 @@
-import PytezosModel.Client.Diff
+import PytezosModel.Proofs.C30
+/-! C30 — protocol source diffs apply and revert exactly.
+
+Strings are `List Char`; `Impl.Diff.applyPatch` / `Impl.Diff.makePatch` mirror `apply_patch` and the part of `make_patch`
+that follows `difflib.unified_diff` (src/pytezos/protocol/diff.py).  `difflib` itself is not modelled: a `Spec.Diff.Script`
+is an edit script (unchanged stretches and hunks of context / deleted / added lines, with any amount of context),
+`oldOf` / `newOf` its two texts as lines and `Spec.Diff.unifiedDiff fname s` the lines `unified_diff` yields for it.
+The theorems quantify over ALL scripts — hence over every pair of texts, every context size, count-0 hunks, empty texts,
+a missing final newline on either side — and the correspondence checks for every exercised pair that the real
+`make_patch` output is the rendering of such a script. -/
+deriving instance DecidableEq for Except
+
 namespace C30
+open Impl.Diff Spec.Diff Proofs.C30
+
+/-- the marker, the `(midx, sign)` pairs and the header regex read from the source are the modelled ones -/
+theorem config_eq : config = some ⟨['\\', ' ', 'N', 'o', ' ', 'n', 'e', 'w', 'l', 'i', 'n', 'e', ' ', 'a', 't', ' ', 'e', 'n', 'd', ' ',
+    'o', 'f', ' ', 'f', 'i', 'l', 'e'], (1, '+'), (3, '-')⟩ := by decide
+
+/-- the property, on scripts: for every file name without newline and every edit script whose two sides are texts split into
+lines, the patch `make_patch` builds from the script applies to the old text giving the new one, and reverts the new text to
+the old one -/
+theorem apply_render (fname : List Char) (s : Script) (hfn : '\n' ∉ fname) (ho : LinesWF (oldOf s)) (hn : LinesWF (newOf s)) :
+    ∃ p, makePatch (unifiedDiff fname s) = .ok p ∧
+      applyPatch (join (oldOf s)) p false = .ok (join (newOf s)) ∧
+      applyPatch (join (newOf s)) p true = .ok (join (oldOf s)) := by
+  refine ⟨makePatchWith cfg0 (unifiedDiff fname s), ?_, ?_, ?_⟩
+  · simp [makePatch, withConfig, config_eq, cfg0]
+  · have := applyPatch_render cfg0 rfl rfl rfl cfg0_nl fname hfn s ho hn false
+    simpa [applyPatch, withConfig, config_eq, cfg0, sideSrc, sideDst] using this
+  · have := applyPatch_render cfg0 rfl rfl rfl cfg0_nl fname hfn s ho hn true
+    simpa [applyPatch, withConfig, config_eq, cfg0, sideSrc, sideDst] using this
+
+/-- the property, on texts: for ALL strings `old`, `new` and every script that edits the lines of `old` into the lines of
+`new` (whatever its context size), applying the generated patch to `old` yields `new` and applying it in reverse to `new`
+yields `old` -/
+theorem roundtrip (old new fname : List Char) (s : Script) (hfn : '\n' ∉ fname)
+    (hold : oldOf s = splitLines old) (hnew : newOf s = splitLines new) :
+    ∃ p, makePatch (unifiedDiff fname s) = .ok p ∧ applyPatch old p false = .ok new ∧ applyPatch new p true = .ok old := by
+  obtain ⟨p, h0, h1, h2⟩ := apply_render fname s hfn (hold ▸ linesWF_splitLines old) (hnew ▸ linesWF_splitLines new)
+  refine ⟨p, h0, ?_, ?_⟩
+  · simpa [hold, hnew, join_splitLines] using h1
+  · simpa [hold, hnew, join_splitLines] using h2
+
+/-- every pair of texts has an edit script (delete every old line, add every new line), so `roundtrip` is not vacuous for any pair -/
+theorem script_exists (old new : List Char) : ∃ s : Script, oldOf s = splitLines old ∧ newOf s = splitLines new := by
+  refine ⟨[.hunk ((splitLines old).map .del ++ (splitLines new).map .add)], ?_, ?_⟩
+  · have h1 : ∀ ls : List Line, oldLines (ls.map .add) = [] := by
+      intro ls; induction ls with
+      | nil => rfl
+      | cons l ls ih => simp [oldLines, ih]
+    have h2 : ∀ (ls : List Line) (r : List Op), oldLines (ls.map .del ++ r) = ls ++ oldLines r := by
+      intro ls r; induction ls with
+      | nil => rfl
+      | cons l ls ih => simp [oldLines, Op.line, ih]
+    simp [oldOf, h1, h2]
+  · have h1 : ∀ ls : List Line, newLines (ls.map .add) = ls := by
+      intro ls; induction ls with
+      | nil => rfl
+      | cons l ls ih => simp [newLines, Op.line, ih]
+    have h2 : ∀ (ls : List Line) (r : List Op), newLines (ls.map .del ++ r) = newLines r := by
+      intro ls r; induction ls with
+      | nil => rfl
+      | cons l ls ih => simp [newLines, ih]
+    simp [newOf, h1, h2]
+
+/-- identical texts: the patch is the empty string (`Protocol.patch` then keeps the text as it is) -/
+theorem no_hunks_empty_patch (fname : List Char) (s : Script) (h : hunkLines s 0 0 = []) :
+    makePatch (unifiedDiff fname s) = .ok [] ∧ oldOf s = newOf s := by
+  refine ⟨?_, hunkLines_nil_sides s 0 0 h⟩
+  simp [makePatch, withConfig, config_eq, unifiedDiff, h, makePatchWith]
+
+/-! error branches of `apply_patch` -/
+
+/-- a first line after the file header that is not a hunk header: `ValueError('Regex mismatch …')` -/
+theorem apply_rejects_non_header (source patch : List Char) (revert : Bool) (p : Line) (rest : List Line)
+    (hp : (splitLines patch).dropWhile isFileHeader = p :: rest) (hh : parseHeader p = none) :
+    applyPatch source patch revert = .error .regexMismatch := by
+  simp only [applyPatch, withConfig, config_eq, applyPatchWith, applyLinesWith, hp]
+  cases rest with
+  | nil => rw [go.eq_2]; simp [hh]
+  | cons q r => rw [go.eq_3]; simp [hh]
+
+/-- a hunk that starts beyond the end of the text (or before the current position): `ValueError('Bad line num …')` -/
+theorem apply_rejects_bad_line (source patch : List Char) (p : Line) (rest : List Line) (n1 n3 : Nat) (g2 g4 : Option (List Char))
+    (hp : (splitLines patch).dropWhile isFileHeader = p :: rest) (hh : parseHeader p = some (n1, g2, n3, g4))
+    (hbad : hunkStart n1 g2 < 0 ∨ hunkStart n1 g2 > ((splitLines source).length : Int)) :
+    applyPatch source patch false = .error .badLineNum := by
+  simp only [applyPatch, withConfig, config_eq, applyPatchWith, applyLinesWith, hp]
+  cases rest with
+  | nil => rw [go.eq_2]; simp [hh]; intro h1 h2; omega
+  | cons q r => rw [go.eq_3]; simp [hh]; intro h1 h2; omega
+
+/-! `Protocol.diff` / `Protocol.patch`, file-wise -/
+
+/-- diffing `yours` against a protocol whose files are the new sides of the given scripts (each script starting from
+`yours.get(filename, '')`) and patching `yours` with the result reproduces exactly those files -/
+theorem protocol_roundtrip (yours : Files) (theirs : List (List Char × Script))
+    (h : ∀ ns ∈ theirs, '\n' ∉ ns.1 ∧ oldOf ns.2 = splitLines (lookup yours ns.1) ∧ LinesWF (newOf ns.2)) :
+    ∃ d, protocolDiff theirs = .ok d ∧
+      protocolPatch yours d = .ok (theirs.map fun ns => (ns.1, join (newOf ns.2))) := by
+  refine ⟨theirs.map fun ns => (ns.1, makePatchWith cfg0 (unifiedDiff ns.1 ns.2)), ?_, ?_⟩
+  · have harg : protocolArg = .ok () := by decide
+    simp only [protocolDiff, Generated.C30.protocolDiffShape, Bool.not_true, Bool.false_eq_true, if_false, harg]
+    clear h
+    induction theirs with
+    | nil => rfl
+    | cons ns r ih =>
+      simp only [List.mapM_cons, List.map_cons] at ih ⊢
+      rw [ih]
+      simp [makePatch, withConfig, config_eq, cfg0, Except.map, bind, Except.bind, pure, Except.pure]
+  · have harg : protocolArg = .ok () := by decide
+    simp only [protocolPatch, Generated.C30.protocolPatchShape, Bool.not_true, Bool.false_eq_true, if_false, harg]
+    induction theirs with
+    | nil => rfl
+    | cons ns r ih =>
+      obtain ⟨h1, h2, h3⟩ := h ns (by simp)
+      have ih' := ih (fun x hx => h x (by simp [hx]))
+      have one := patch_one yours ns.1 ns.2 h1 h2 h3
+      simp only [List.mapM_cons, List.map_cons] at ih' ⊢
+      rw [ih']
+      simp only [applyPatch, withConfig, config_eq]
+      change (do let b ← (if (makePatchWith cfg0 (unifiedDiff ns.1 ns.2)).isEmpty then (.ok (ns.1, lookup yours ns.1) : Except Err _)
+        else (applyPatchWith cfg0 (lookup yours ns.1) (makePatchWith cfg0 (unifiedDiff ns.1 ns.2)) false).map fun t => (ns.1, t)); _) = _
+      rw [one]
+      rfl
+
+/-! non-vacuity: a concrete pair with a missing final newline on the old side, context 1 -/
+private def exOld : List Char := ['a', '\n', 'b', '\n', 'c']
+private def exNew : List Char := ['a', '\n', 'B', '\n', 'c', '\n']
+private def exScript : Script := [.hunk [.ctx ['a', '\n'], .del ['b', '\n'], .del ['c'], .add ['B', '\n'], .add ['c', '\n']]]
+
+example : ∃ p, makePatch (unifiedDiff ['f'] exScript) = .ok p ∧ applyPatch exOld p false = .ok exNew ∧ applyPatch exNew p true = .ok exOld :=
+  roundtrip exOld exNew ['f'] exScript (by decide) (by decide) (by decide)
+
+/-! the mirror itself, evaluated on a literal patch with the no-newline marker and a count-0 hunk; the two error branches -/
+private def exPatch : List Char := ['-', '-', '-', ' ', 'f', '\n', '+', '+', '+', ' ', 'f', '\n', '@', '@', ' ', '-', '1', ',', '0', ' ', '+', '2', ' ', '@', '@', '\n', '+', 'x', '\n', '@', '@', ' ', '-', '2', ' ', '+', '3', ' ', '@', '@', '\n', '-', 'b', '\n', '\\', ' ', 'N', 'o', ' ', 'n', 'e', 'w', 'l', 'i', 'n', 'e', ' ', 'a', 't', ' ', 'e', 'n', 'd', ' ', 'o', 'f', ' ', 'f', 'i', 'l', 'e', '\n', '+', 'B', '\n']
+example : applyPatch ['a', '\n', 'b'] exPatch false = .ok ['a', '\n', 'x', '\n', 'B', '\n'] := by decide +kernel
+example : applyPatch ['a', '\n', 'x', '\n', 'B', '\n'] exPatch true = .ok ['a', '\n', 'b'] := by decide +kernel
+example : applyPatch ['a', '\n'] ['-', '-', '-', ' ', 'f', '\n', '+', '+', '+', ' ', 'f', '\n', '@', '@', ' ', '-', '3', ' ', '+', '3', ' ', '@', '@', '\n', '-', 'b', '\n', '+', 'c', '\n'] false = .error .badLineNum := by decide +kernel
+example : applyPatch ['a', '\n'] ['-', '-', '-', ' ', 'f', '\n', '+', '+', '+', ' ', 'f', '\n', '-', 'b', '\n'] false = .error .regexMismatch := by decide +kernel
+
 end C30
